@@ -819,6 +819,185 @@ def gen_C13(seed, tier):
     return finish(g, out, samples, len(sigs))
 
 
+
+# ------------------------------------------------------------------------------------------------
+# C07: equivalent descriptions of one mechanism
+import copy
+
+
+def c07_variants(g, kind):
+    """list of (label, [ (joint spec kind or raw axes, massless?) ... ]) describing the same joint"""
+    ex, ey, ez = [F(1), F(0), F(0)], [F(0), F(1), F(0)], [F(0), F(0), F(1)]
+    Z = [F(0)] * 3
+    order = {"EulerZYX": [ez, ey, ex], "EulerXYZ": [ex, ey, ez], "EulerYXZ": [ey, ex, ez], "EulerZXY": [ez, ex, ey]}
+    if kind in order:
+        ax = [a + Z for a in order[kind]]
+        return [("builtin", ("T " + kind, None)), ("emulated", ("A 3 " + " ".join(G.frs(a) for a in ax), None)),
+                ("chain", ("CHAIN", ax))]
+    if kind == "TranslationXYZ":
+        ax = [Z + ex, Z + ey, Z + ez]
+        return [("builtin", ("T TranslationXYZ", None)), ("emulated", ("A 3 " + " ".join(G.frs(a) for a in ax), None)),
+                ("chain", ("CHAIN", ax))]
+    if kind == "FloatingBase":
+        return [("builtin", ("T FloatingBase", None)), ("explicit", ("FLOAT", None))]
+    if kind == "RevoluteX":
+        return [("builtin", ("T RevoluteX", None)), ("custom", ("C revX", None)), ("axis", ("A 1 1 0 0 0 0 0", None)),
+                ("revolute", ("R 1 0 0", None))]
+    if kind == "CustomEulerZYX":
+        return [("builtin", ("T EulerZYX", None)), ("custom", ("C eulerZYX", None))]
+    raise ValueError(kind)
+
+
+def gen_C07(seed, tier):
+    g = G.Gen(seed)
+    out, samples, sigs = [], [], set()
+    n = nmodels(tier, 28, 200)
+    kinds = ["EulerZYX", "EulerXYZ", "EulerYXZ", "EulerZXY", "TranslationXYZ", "FloatingBase", "RevoluteX", "CustomEulerZYX"]
+    for i in range(n):
+        kind = kinds[i % len(kinds)]
+        variants = c07_variants(g, kind)
+        # common prefix
+        pre = G.random_model(g, max_joints=2, fixed_prob=0.3, allow_floating=False) if i % 3 else G.ModelBuilder(g)
+        parent = g.r.choice(pre.ids)
+        frame = g.frame()
+        body = g.body()
+        child_kind = g.r.choice(["RevoluteY", "Prismatic", "Revolute", "Helical"])
+        child_js = None
+        child_frame, child_body = g.frame(), g.body()
+        fixed_frame, fixed_body = g.frame(), g.body()
+        cases = []
+        state = None
+        for label, (spec, extra) in variants:
+            mb = copy.deepcopy(pre)
+            mb.g = g
+            nullb = G.frs(g.body(massless=True, virtual=True))
+            if spec == "CHAIN":
+                p_ = parent
+                for k, a in enumerate(extra):
+                    last = (k == len(extra) - 1)
+                    mb.lines.append("add %d %s A 1 %s %s -" % (p_, G.frs(frame if k == 0 else [F(1),F(0),F(0),F(0),F(1),F(0),F(0),F(0),F(1),F(0),F(0),F(0)]),
+                                                              G.frs(a), G.frs(body) if last else nullb))
+                    p_ = mb.n_movable
+                    mb.n_movable += 1
+                fid = mb.n_movable - 1
+            elif spec == "FLOAT":
+                mb.lines.append("add %d %s T TranslationXYZ %s -" % (parent, G.frs(frame), nullb))
+                mb.lines.append("add %d 1 0 0 0 1 0 0 0 1 0 0 0 T Spherical %s -" % (mb.n_movable, G.frs(body)))
+                mb.n_movable += 2
+                fid = mb.n_movable - 1
+            else:
+                mb.lines.append("add %d %s %s %s -" % (parent, G.frs(frame), spec, G.frs(body)))
+                nb = 3 if spec.startswith("A 3") else (2 if spec == "T FloatingBase" else 1)
+                mb.n_movable += nb
+                fid = mb.n_movable - 1
+            # a child joint and a fixed body below the joint under test
+            if child_js is None:
+                child_js = mb.jspec(child_kind)[0]
+            mb.lines.append("add %d %s %s %s -" % (fid, G.frs(child_frame), child_js, G.frs(child_body)))
+            cid_body = mb.n_movable
+            mb.n_movable += 1
+            mb.lines.append("add %d %s T Fixed %s -" % (fid, G.frs(fixed_frame), G.frs(fixed_body)))
+            fixid = G.FIXED_DISC + mb.n_fixed
+            mb.n_fixed += 1
+            if state is None:
+                qk = {"EulerZYX": ["a0", "am", "a2"], "EulerXYZ": ["a0", "am", "a2"], "EulerYXZ": ["a0", "am", "a2"],
+                      "EulerZXY": ["a0", "am", "a2"], "TranslationXYZ": ["x"] * 3,
+                      "FloatingBase": ["x", "x", "x", "qx", "qy", "qz"], "RevoluteX": ["a"], "CustomEulerZYX": ["a0", "am", "a2"]}[kind]
+                pre2 = copy.deepcopy(pre); pre2.g = g
+                pre2.qkinds = pre.qkinds + qk + (["x"] if child_kind == "Prismatic" else ["a"])
+                pre2.nsph = sum(1 for k in pre2.qkinds if k == "qx")
+                state = pre2.state_lines()
+                pt = G.point(g)
+            calls = ["call ID", "call FD", "call CRBA 1", "call NE", "call COM 1", "call KE 1",
+                     "call B2B %d %s 1" % (cid_body, pt), "call PV6 %d %s 1" % (fixid, pt), "call PA6 %d %s 1" % (cid_body, pt),
+                     "call PJ6 %d %s 1 z" % (fixid, pt), "call MINV 1"]
+            cid = "c07%s%s_%d" % (kind, label, i)
+            cases.append(cid)
+            out += ["case " + cid, "gravity 1/2 -3 2"] + mb.lines + state + calls
+        for c in cases[1:]:
+            out.append("#twin %s %s" % (cases[0], c))
+        sigs.add((kind, tuple(pre.kinds), child_kind))
+        g.stats["rewrite:" + kind] += 1
+        if len(samples) < 3:
+            samples.append({"kind": kind, "variants": [v[0] for v in variants], "prefix": [list(k) for k in pre.kinds]})
+    # fixed body versus inertia merged beforehand (the merged parameters come from the exact model)
+    m2 = nmodels(tier, 12, 80)
+    for i in range(m2):
+        pre = G.random_model(g, max_joints=2, fixed_prob=0.0, allow_floating=False)
+        parent = g.r.choice(pre.ids)
+        jk = g.r.choice(["RevoluteZ", "Revolute", "Prismatic", "EulerXYZ", "Helical"])
+        frame, body = g.frame(), g.body()
+        ff, fb = g.frame(0.1), g.body()
+        res = G.lean_query("case j\njoin %s %s %s\n" % (G.frs(body), G.frs(ff), G.frs(fb)))
+        toks = [v for (k, nme), v in res.items() if nme == "join"][0]
+        merged = [G.parse_fr(x) for x in toks[1:]] + [0]
+        A = copy.deepcopy(pre); A.g = g
+        A.add(parent, jk, body=body, frame=frame)
+        A.lines.append("add %d %s T Fixed %s -" % (A.n_movable - 1, G.frs(ff), G.frs(fb)))
+        B = copy.deepcopy(pre); B.g = g
+        js = A.lines[-2].split()
+        # same joint spec tokens, merged body
+        B.lines.append(" ".join(js[:14]) + " " + " ".join(js[14:len(js) - 15]) + " " + G.frs(merged) + " -")
+        B.n_movable = A.n_movable
+        B.qkinds = list(A.qkinds); B.nsph = A.nsph
+        state = A.state_lines()
+        pt = G.point(g)
+        bid = A.n_movable - 1
+        calls = ["call ID", "call FD", "call CRBA 1", "call COM 1", "call KE 1", "call PA6 %d %s 1" % (bid, pt)]
+        ca, cb = "c07mergeA_%d" % i, "c07mergeB_%d" % i
+        out += ["case " + ca, "gravity 1 -2 3"] + A.lines + state + calls
+        out += ["case " + cb, "gravity 1 -2 3"] + B.lines + state + calls
+        out.append("#twin %s %s" % (ca, cb))
+        g.stats["rewrite:merge"] += 1
+        sigs.add(("merge", tuple(pre.kinds), jk))
+    # sibling branches added in a different order
+    m3 = nmodels(tier, 12, 80)
+    for i in range(m3):
+        root = G.ModelBuilder(g)
+        root.add(0, g.r.choice(["RevoluteZ", "EulerZYX", "Revolute", "FloatingBase"]))
+        rid = root.n_movable - 1
+        k1, k2 = g.r.choice(["RevoluteX", "Prismatic", "EulerXYZ", "Helical"]), g.r.choice(["RevoluteY", "Revolute", "TranslationXYZ"])
+        f1, b1, f2, b2 = g.frame(), g.body(), g.frame(), g.body()
+        A = copy.deepcopy(root); A.g = g
+        B = copy.deepcopy(root); B.g = g
+        n0 = root.nv
+        # use fixed joint specs for both orders
+        j1, q1, _ = root.jspec(k1)
+        j2, q2, _ = root.jspec(k2)
+        for M, order in ((A, (1, 2)), (B, (2, 1))):
+            for o in order:
+                js, fr_, bd, qk = (j1, f1, b1, q1) if o == 1 else (j2, f2, b2, q2)
+                M.lines.append("add %d %s %s %s -" % (rid, G.frs(fr_), js, G.frs(bd)))
+                M.n_movable += 1
+                M.qkinds += qk
+        A.nsph = B.nsph = root.nsph
+        stateA = A.state_lines()
+        # permute the state for B: coordinates of branch 2 come first
+        d1, d2 = len(q1), len(q2)
+        permA2B = list(range(n0)) + [n0 + d2 + k for k in range(d1)] + [n0 + k for k in range(d2)]
+        # entry i of A corresponds to entry permA2B[i] of B
+        def permute_line(line):
+            t = line.split()
+            name, cnt, vals = t[0], int(t[1]), t[2:]
+            nvv = len(permA2B)
+            new = list(vals)
+            for ia, ib in enumerate(permA2B):
+                new[ib] = vals[ia]
+            return "%s %d %s" % (name, cnt, " ".join(new))
+        stateB = [permute_line(l) for l in stateA]
+        pt = G.point(g)
+        bA1 = rid + 1; bB1 = rid + 2
+        callsA = ["call ID", "call FD", "call CRBA 1", "call NE", "call MINV 1", "call KE 1", "call COM 1", "call PJ6 %d %s 1 z" % (bA1, pt), "call PA6 %d %s 1" % (bA1, pt)]
+        callsB = ["call ID", "call FD", "call CRBA 1", "call NE", "call MINV 1", "call KE 1", "call COM 1", "call PJ6 %d %s 1 z" % (bB1, pt), "call PA6 %d %s 1" % (bB1, pt)]
+        ca, cb = "c07permA_%d" % i, "c07permB_%d" % i
+        out += ["case " + ca, "gravity 0 -3 1"] + A.lines + stateA + callsA
+        out += ["case " + cb, "gravity 0 -3 1"] + B.lines + stateB + callsB
+        out.append("#twin %s %s perm %s" % (ca, cb, " ".join(str(x) for x in permA2B)))
+        g.stats["rewrite:branch-order"] += 1
+        sigs.add(("perm", k1, k2))
+    return finish(g, out, samples, len(sigs))
+
+
 NOT_YET = {}
 
 COMMON_ASSUMPTIONS = ["double evaluation is compared with exact rational evaluation up to 1e-8*scale",
@@ -880,6 +1059,10 @@ PROPS = {
     "C13": {"gen": gen_C13,
             "rule": "for random models and 4 routines each (22 public routines): a pristine model called with state B versus the same model after 1-3 earlier calls with state A and external forces A, then a deterministic poisoning of every free workspace entry, then the call with state B; flag-cleared variants after the documented predecessor; constraint-set routines after earlier calls on the same set; distinct = distinct (model shape, routine, history)",
             "explanation": "direct statement on the implementation (twin comparison pristine vs polluted, relative 1e-9) plus correspondence of every polluted run with the workspace-passing Lean model given the identical poison",
+            "assumptions": COMMON_ASSUMPTIONS},
+    "C07": {"gen": gen_C07,
+            "rule": "twin models: Euler ZYX/XYZ/YXZ/ZXY and XYZ translation as built-in joint vs emulated 3-DoF joint vs chain of 1-DoF joints through massless bodies; floating base vs translation + spherical; RevoluteX as built-in / custom / axis / revolute; custom EulerZYX vs built-in; fixed body vs inertia merged beforehand (merged parameters from the exact model); sibling branches added in swapped order (coordinate permutation); each below a random prefix, with a child joint and a fixed body attached; compared on InverseDynamics, ForwardDynamics, CRBA, NonlinearEffects, CoM, energies, point position / velocity / acceleration, Jacobians, M^-1 tau",
+            "explanation": "direct statement on the implementation (twin comparison) plus correspondence of every variant with the Lean model and its spec monitors",
             "assumptions": COMMON_ASSUMPTIONS},
     "C12": {"gen": gen_C12, "rule": RULE_MODELS + "; random contact plane (unit normal, point off the origin)", "explanation": "monitor: definitions of mass, CoM, momentum, energies, ZMP on jets of the pose specification",
             "assumptions": COMMON_ASSUMPTIONS},
